@@ -18,7 +18,12 @@ RBM = ("ext", "flowjax.masks.rank_based_mask")
 TREE_AT = ("ext", "equinox.tree_at")
 
 
+DEPTHS = (0, 1, 2, 3)
+
+
 def run(prog: Program, rep: Report, tier: str):
+    global DEPTHS
+    DEPTHS = (0, 1, 2, 3) if tier != "thorough" else tuple(range(0, 9))
     rule_made_masks(prog, rep)
     rule_ranks(prog, rep)
     rule_mask_helpers(prog, rep)
@@ -42,7 +47,7 @@ def rule_made_masks(prog, rep):
     m, fn = prog.func(MA + "masked_autoregressive_mlp")
     site = f"{m.relpath}:{fn.lineno}"
     IN, HID, OUT = ("sym", "IN_RANKS"), ("sym", "HIDDEN_RANKS"), ("sym", "OUT_RANKS")
-    for depth in (0, 1, 2, 3):
+    for depth in DEPTHS:
         it = Interp(prog, no_inline={"flowjax.masks.rank_based_mask"})
         t = it.eval_function(MA + "masked_autoregressive_mlp", [IN, HID, OUT],
                              {"depth": C(depth), "activation": ("sym", "ACT"), "key": ("sym", "KEY")})
@@ -285,7 +290,7 @@ def rule_block(prog, rep):
     compare(rep, "C09.block", method_site(prog, c, "transform"), "BlockAutoregressiveNetwork.transform", got, want, "transform")
     site = method_site(prog, c, "__init__")
     BD, DIM = ("sym", "BLOCK_DIM"), ("sym", "DIM")
-    for depth in (0, 1, 2, 3):
+    for depth in DEPTHS:
         it = Interp(prog, no_inline={BN + "block_autoregressive_linear"})
         f = it.eval_init(c, [("sym", "KEY")], {"dim": DIM, "cond_dim": ("sym", "COND_DIM"), "depth": C(depth),
                                                 "block_dim": BD, "activation": ("sym", "ACTIVATION"), "inverter": ("sym", "INV")})
